@@ -1,1 +1,4 @@
 pub mod vlq;
+pub mod prov;
+pub mod replace_attr;
+pub mod lookup;
